@@ -74,21 +74,28 @@ def pool_check(run, n, procs_list, count):
                     pass
             elif res != ref:
                 return evals, {"what": "result depends on the number of worker processes", "processes": p, "K": K, "v": v}
-    # the meta-game returns the same quantity
-    v = gen.superadditive_game(run.rng, n, kind="int")
-    full = game_m.IncompleteCooperativeGame(n)
-    full.set_values(np.array(v))
-    inc = game_m.IncompleteCooperativeGame(n, bounds.BOUNDS["superadditive_cached"])
-    m = mg.MetaGame(full, inc, model.GAP_FUNCTIONS["exploitability"])
+    # the meta-game returns the same quantity - for several meta-game objects alive at once (different full games, gap
+    # functions and bound computers), asked alternately
     non_min = [c for c in range(1 << n) if c not in minimal(n)]
-    for meta in range(min(1 << len(non_min), 64)):
-        evals += 1
+    objs = []
+    for j, (gapname, comp) in enumerate((("exploitability", "superadditive_cached"), ("exploitability", "superadditive_cached"),
+                                         ("l1_norm", "superadditive"), ("linf_norm", "sam_apx_1"))):
+        v = gen.superadditive_game(run.rng, n, kind=("int", "float")[j % 2], monotone=(comp == "sam_apx_1"))
+        full = game_m.IncompleteCooperativeGame(n)
+        full.set_values(np.array(v))
+        inc = game_m.IncompleteCooperativeGame(n, bounds.BOUNDS[comp])
+        objs.append((mg.MetaGame(full, inc, model.GAP_FUNCTIONS[gapname]), v, gapname, comp))
+    metas = list(range(min(1 << len(non_min), 64)))
+    for meta in metas + run.rng.sample(metas, min(8, len(metas))):
         ids = sorted(set(minimal(n)) | {non_min[j] for j in range(len(non_min)) if meta >> j & 1})
-        h = game_m.IncompleteCooperativeGame(n, bounds.BOUNDS["superadditive_cached"])
-        h.set_known_values([v[c] for c in ids], [co.Coalition(c) for c in ids])
-        h.compute_bounds()
-        if float(m.get_value(co.Coalition(meta))) != float(model.GAP_FUNCTIONS["exploitability"](h)):
-            return evals, {"what": "meta-game value differs", "meta": meta, "v": v}
+        for m, v, gapname, comp in objs:
+            evals += 1
+            h = game_m.IncompleteCooperativeGame(n, bounds.BOUNDS[comp])
+            h.set_known_values([v[c] for c in ids], [co.Coalition(c) for c in ids])
+            h.compute_bounds()
+            if float(m.get_value(co.Coalition(meta))) != float(model.GAP_FUNCTIONS[gapname](h)):
+                return evals, {"what": "meta-game value differs from the gap of its own game at that knowledge", "meta": meta, "v": v,
+                               "gap": gapname, "computer": comp, "meta_game_objects_alive": len(objs)}
     return evals, None
 
 
@@ -198,6 +205,11 @@ def main(run):
     for n, gap, metas in ((3, "l1_norm", range(8)), (4, "exploitability", (0, 1, 5, 1023, 682) if quick else run.rng.sample(range(1024), 20))):
         for meta in metas:
             run.prove(f"meta_game[n={n},{gap},meta={meta}]", E.sc_meta_game, {"n": n, "gap": gap, "meta": meta}, pkg=pkg)
+    # several meta-game objects in one process (different full games / gap functions), queried alternately
+    run.prove("meta_game_pair[n=3,l1,l1]", E.sc_meta_game_pair, {"n": 3, "gap_a": "l1_norm", "gap_b": "l1_norm", "metas": [0, 5, 7]}, pkg=pkg)
+    run.prove("meta_game_pair[n=3,l1,linf]", E.sc_meta_game_pair, {"n": 3, "gap_a": "l1_norm", "gap_b": "linf_norm", "metas": [3, 0]}, pkg=pkg)
+    run.prove("meta_game_pair[n=4,expl,expl]", E.sc_meta_game_pair, {"n": 4, "gap_a": "exploitability", "gap_b": "exploitability", "metas": [0, 682]},
+              pkg=pkg)
     run.prove("search[n=3,all]", E.sc_search, {"n": 3, "max_size": None}, pkg=pkg)
     run.prove("search[n=3,k=2,start={3}]", E.sc_search, {"n": 3, "max_size": 2, "gap": "l1_norm", "start": [3]}, pkg=pkg)
     run.prove("search[n=4,k=2,start={3,12}]", E.sc_search, {"n": 4, "max_size": 2, "gap": "linf_norm", "start": [3, 12]}, pkg=pkg)
